@@ -490,11 +490,19 @@ func ruleRingModulus(c *Ctx) {
 	size := P.Field(rs, "historyBuffer", "size")
 	n, okAll := 0, true
 	bad := ""
+	records := P.Field(rs, "historyBuffer", "records")
 	for _, fn := range P.Funcs {
-		if fnPkgPath(fn) != modPath+"/"+rs || fn.Signature.Recv() == nil || P.isScaffold(fn) {
+		if fnPkgPath(fn) != modPath+"/"+rs || P.isScaffold(fn) {
 			continue
 		}
-		if rn := namedOf(fn.Signature.Recv().Type()); rn == nil || rn.Obj().Name() != "historyBuffer" {
+		m := fn
+		for m.Parent() != nil {
+			m = m.Parent()
+		}
+		if m.Signature.Recv() == nil {
+			continue
+		}
+		if rn := namedOf(m.Signature.Recv().Type()); rn == nil || rn.Obj().Name() != "historyBuffer" {
 			continue
 		}
 		for _, b := range fn.Blocks {
@@ -504,14 +512,15 @@ func ruleRingModulus(c *Ctx) {
 					continue
 				}
 				n++
-				if !isLoadOf(bo.Y, size) {
+				// the slot count: the field, or the length of the slot array made with it
+				if !isLoadOf(bo.Y, size) && !lenOf(loadOfField(records))(bo.Y) {
 					okAll = false
 					bad = P.instrPos(bo)
 				}
 			}
 		}
 	}
-	c.Check(okAll && n >= 3, rule, "ring positions of the change log", "every position is reduced modulo the slot count (historyBuffer.size)", P.pos(P.Method(rs, "historyBuffer", "RecordsFrom").Pos()), fmt.Sprintf("%d modulo operations; other modulus at %s", n, bad))
+	c.Check(okAll && n >= 1, rule, "ring positions of the change log", "every position is reduced modulo the slot count (historyBuffer.size)", P.pos(P.Method(rs, "historyBuffer", "RecordsFrom").Pos()), fmt.Sprintf("%d modulo operations; other modulus at %s", n, bad))
 }
 
 func ruleHistoryReset(c *Ctx) {
